@@ -312,7 +312,15 @@ func (c *Check) baseReads() {
 		}
 		// unreachable when baseErr != nil
 		reach := reachUnder(f, func(cond ssa.Value) int {
-			if cmp, ok := cond.(*ssa.BinOp); ok && (isFieldLoad(cmp.X, "binutils.file", "baseErr") || isFieldLoad(cmp.Y, "binutils.file", "baseErr")) {
+			isBaseErr := func(v ssa.Value) bool {
+				if isFieldLoad(v, "binutils.file", "baseErr") {
+					return true
+				}
+				// the outcome handed back by a helper that runs the once and returns baseErr
+				call, ok := v.(*ssa.Call)
+				return ok && call.Call.StaticCallee() != nil && returnsFieldOfReceiver(call.Call.StaticCallee(), "binutils.file", "baseErr")
+			}
+			if cmp, ok := cond.(*ssa.BinOp); ok && (isBaseErr(cmp.X) || isBaseErr(cmp.Y)) {
 				switch cmp.Op {
 				case token.NEQ:
 					return 1
@@ -592,35 +600,90 @@ func (c *Check) computeBaseRange() {
 		c.undecided("C13-R4", "range", p.relFile(f.Pos()), "computeBase does not call findProgramHeader")
 		return
 	}
+	// the address being translated: computeBase's integer parameter
+	var addrPar *ssa.Parameter
+	for _, pr := range f.Params {
+		if bt, ok := pr.Type().Underlying().(*types.Basic); ok && bt.Kind() == types.Uint64 {
+			addrPar = pr
+		}
+	}
+	if addrPar == nil {
+		c.undecided("C13-R4", "range", p.relFile(f.Pos()), "computeBase has no uint64 address parameter")
+		return
+	}
 	for _, side := range []struct {
 		field string
-		op    token.Token
+		below bool
 		what  string
-	}{{"start", token.LSS, "below the mapping start"}, {"limit", token.GEQ, "at or above the mapping limit"}} {
-		reach := reachUnder(f, func(cond ssa.Value) int {
-			cmp, ok := cond.(*ssa.BinOp)
-			if !ok {
-				return 0
-			}
-			pr, isP := cmp.X.(*ssa.Parameter)
-			if isP && pr.Name() == "addr" && isFieldLoad(cmp.Y, "binutils.elfMapping", side.field) && cmp.Op == side.op {
-				return 1
-			}
-			return 0
-		})
-		key := "range:" + side.field
-		// the rule only applies when such a comparison exists
-		exists := false
-		for _, b := range f.Blocks {
-			for _, ins := range b.Instrs {
-				if cmp, ok := ins.(*ssa.BinOp); ok && cmp.Op == side.op && isFieldLoad(cmp.Y, "binutils.elfMapping", side.field) {
-					if pr, isP := cmp.X.(*ssa.Parameter); isP && pr.Name() == "addr" {
-						exists = true
+	}{{"start", true, "below the mapping start"}, {"limit", false, "at or above the mapping limit"}} {
+		// assume addr < start (resp. addr >= limit); comparisons of the address with that bound,
+		// in either orientation and in boolean helpers of the package, are decided by it
+		mentioned := false
+		var assumeFor func(addr ssa.Value, depth int) func(cond ssa.Value) int
+		assumeFor = func(addr ssa.Value, depth int) func(cond ssa.Value) int {
+			return func(cond ssa.Value) int {
+				switch x := cond.(type) {
+				case *ssa.BinOp:
+					op := x.Op
+					var other ssa.Value
+					switch {
+					case x.X == addr:
+						other = x.Y
+					case x.Y == addr:
+						other = x.X
+						switch op { // mirror so that the address is on the left
+						case token.LSS:
+							op = token.GTR
+						case token.LEQ:
+							op = token.GEQ
+						case token.GTR:
+							op = token.LSS
+						case token.GEQ:
+							op = token.LEQ
+						}
+					default:
+						return 0
+					}
+					if !isFieldLoad(other, "binutils.elfMapping", side.field) {
+						return 0
+					}
+					mentioned = true
+					if side.below { // addr < start
+						switch op {
+						case token.LSS, token.LEQ, token.NEQ:
+							return 1
+						case token.GEQ, token.GTR, token.EQL:
+							return -1
+						}
+					} else { // addr >= limit
+						switch op {
+						case token.GEQ:
+							return 1
+						case token.LSS:
+							return -1
+						}
+					}
+				case *ssa.Call:
+					callee := x.Call.StaticCallee()
+					if callee == nil || !fnInModule(callee) || len(callee.Blocks) == 0 || depth > 1 {
+						return 0
+					}
+					if bt, ok := x.Type().Underlying().(*types.Basic); !ok || bt.Kind() != types.Bool {
+						return 0
+					}
+					for i, a := range x.Call.Args {
+						if a == addr && i < len(callee.Params) {
+							return boolResultUnder(callee, assumeFor(callee.Params[i], depth+1))
+						}
 					}
 				}
+				return 0
 			}
 		}
-		if exists && !reach[fph.Block()] {
+		reach := reachUnder(f, assumeFor(addrPar, 0))
+		key := "range:" + side.field
+		// the rule only applies when the address is compared with that bound at all
+		if mentioned && !reach[fph.Block()] {
 			c.ok("C13-R4", key, p.relFile(fph.Pos()), "computeBase rejects an address "+side.what, "findProgramHeader is unreachable when addr is "+side.what)
 		} else {
 			c.bad("C13-R4", key, p.relFile(fph.Pos()), "computeBase looks for a segment with an address "+side.what+": the file offset addr-start+offset wraps around and a wrong segment may be selected")
@@ -701,16 +764,107 @@ func (c *Check) headerForOffset() {
 		}
 		n++
 		res := ret.Results[0]
-		reach := reachUnder(f, func(cond ssa.Value) int {
-			if cmp, isCmp := cond.(*ssa.BinOp); isCmp && (cmp.X == res || cmp.Y == res) {
-				if k, isK := cmp.Y.(*ssa.Const); isK && k.IsNil() {
-					switch cmp.Op {
-					case token.EQL:
-						return 1
-					case token.NEQ:
-						return -1
+		// the search state: the loop-carried variable the result is taken from (the selected
+		// header, or its index), and the constant it holds while nothing has matched
+		var state *ssa.Phi
+		switch x := res.(type) {
+		case *ssa.Phi:
+			state = x
+		case *ssa.UnOp:
+			if ia, isIA := x.X.(*ssa.IndexAddr); isIA && x.Op == token.MUL {
+				state, _ = ia.Index.(*ssa.Phi)
+			}
+		}
+		var init *ssa.Const
+		if state != nil {
+			seenPhi := map[*ssa.Phi]bool{}
+			var find func(ph *ssa.Phi)
+			find = func(ph *ssa.Phi) {
+				if seenPhi[ph] {
+					return
+				}
+				seenPhi[ph] = true
+				for _, e := range ph.Edges {
+					switch y := e.(type) {
+					case *ssa.Const:
+						init = y
+					case *ssa.Phi:
+						find(y)
 					}
 				}
+			}
+			find(state)
+		}
+		if state == nil || init == nil {
+			ok = false
+			continue
+		}
+		reach := reachUnder(f, func(cond ssa.Value) int {
+			cmp, isCmp := cond.(*ssa.BinOp)
+			if !isCmp {
+				return 0
+			}
+			isState := func(v ssa.Value) bool {
+				ph, isPhi := v.(*ssa.Phi)
+				if !isPhi {
+					return false
+				}
+				// the state itself or a phi it is merged from / into
+				if ph == state {
+					return true
+				}
+				for _, e := range state.Edges {
+					if e == ssa.Value(ph) {
+						return true
+					}
+				}
+				for _, e := range ph.Edges {
+					if e == ssa.Value(state) {
+						return true
+					}
+				}
+				return false
+			}
+			k, isK := cmp.Y.(*ssa.Const)
+			if !isK || !isState(cmp.X) {
+				return 0
+			}
+			truth := func(b bool) int {
+				if b {
+					return 1
+				}
+				return -1
+			}
+			if init.IsNil() {
+				if !k.IsNil() {
+					return 0
+				}
+				switch cmp.Op {
+				case token.EQL:
+					return 1
+				case token.NEQ:
+					return -1
+				}
+				return 0
+			}
+			a, okA := constInt(init)
+			bb, okB := constInt(k)
+			if !okA || !okB {
+				return 0
+			}
+			switch cmp.Op {
+			case token.EQL:
+				return truth(a == bb)
+			case token.NEQ:
+				return truth(a != bb)
+			case token.LSS:
+				return truth(a < bb)
+			case token.LEQ:
+				return truth(a <= bb)
+			case token.GTR:
+				return truth(a > bb)
+			case token.GEQ:
+				return truth(a >= bb)
 			}
 			return 0
 		})
@@ -719,7 +873,7 @@ func (c *Check) headerForOffset() {
 		}
 	}
 	if ok && n > 0 {
-		c.ok("C13-R6", "unique:none", p.relFile(f.Pos()), "HeaderForFileOffset returns an error when no header matches", "the successful return is unreachable when the selected header is nil")
+		c.ok("C13-R6", "unique:none", p.relFile(f.Pos()), "HeaderForFileOffset returns an error when no header matches", "the successful return is unreachable while the search state still holds its initial \"nothing matched\" value")
 	} else {
 		c.bad("C13-R6", "unique:none", p.relFile(f.Pos()), "HeaderForFileOffset can return (nil, nil): the caller would compute a base without a segment")
 	}
